@@ -19,7 +19,7 @@ func Verif_C14_rmw_serialisable() {
 	verifapi.Assume(verifapi.All(s0 >= 0, s0 < 1000, a0 > 0, a0 < 1000, a1 > 0, a1 < 1000, a0 != a1))
 	init := &StatusFileData{State: WorkStatePending, Detail: "init", StdoutSize: s0, WorkType: "init"}
 	verifapi.Assert("initial-save", init.Save(file) == nil)
-	verifapi.ExploreSchedules(2)
+	verifapi.ExploreSchedules(2 + verifapi.Tier())
 	done := make(chan error, 3)
 	go func() {
 		sfd := &StatusFileData{}
@@ -76,7 +76,7 @@ func Verif_C14_shared_unit() {
 	verifapi.Assert("initial-save", bwu.Save() == nil)
 	size := verifapi.Int64()
 	verifapi.Assume(verifapi.All(size > 0, size < 1000))
-	verifapi.ExploreSchedules(2)
+	verifapi.ExploreSchedules(2 + verifapi.Tier())
 	done := make(chan bool, 3)
 	go func() {
 		bwu.UpdateBasicStatus(WorkStateRunning, "running", size)
